@@ -684,16 +684,50 @@ func genDtrevc3(g *vlib.G) {
 							return
 						}
 						g.Case(fmt.Sprintf("Dtrevc3 n=%d blocks=%s fill=%d prof=%s ld=+%d", n, blockLabel(blocks), fill, p.name, ldx), func(t *vlib.T) {
-							runDtrevc3(t, n, blocks, fill, p, ldx)
+							runDtrevc3(t, n, blocks, fill, p, ldx, false)
 						})
 					}
 				}
 			}
 		}
 	}
+	// Longer quasi-triangular matrices whose block pattern makes the blocked
+	// back-transformation (nb = 8 or 9 columns, obtained with lwork = 17n, 19n+1)
+	// fill its buffer exactly before / in the middle of a complex pair: r real
+	// eigenvalues at one end, pairs elsewhere, both orientations.
+	for n := 9; n <= vlib.Pick(g, 11, 14); n++ {
+		for r := 0; r <= n; r++ {
+			for _, realsLast := range []bool{true, false} {
+				var blocks []int
+				rest := n - r
+				for i := 0; i < rest/2; i++ {
+					blocks = append(blocks, 2)
+				}
+				if rest%2 == 1 {
+					blocks = append(blocks, 1)
+				}
+				reals := make([]int, r)
+				for i := range reals {
+					reals[i] = 1
+				}
+				if realsLast {
+					blocks = append(blocks, reals...)
+				} else {
+					blocks = append(reals, blocks...)
+				}
+				n, blocks := n, blocks
+				if g.Stopped() {
+					return
+				}
+				g.Case(fmt.Sprintf("Dtrevc3 n=%d blocks=%s long", n, blockLabel(blocks)), func(t *vlib.T) {
+					runDtrevc3(t, n, blocks, 0, profiles[0], 1, true)
+				})
+			}
+		}
+	}
 }
 
-func runDtrevc3(t *vlib.T, n int, blocks []int, fill int, p prof, ldx int) {
+func runDtrevc3(t *vlib.T, n int, blocks []int, fill int, p prof, ldx int, long bool) {
 	log, restore := p.install()
 	defer restore()
 	tm := schurInput(blocks, fill)
@@ -771,7 +805,7 @@ func runDtrevc3(t *vlib.T, n int, blocks []int, fill int, p prof, ldx int) {
 		}
 	}
 	// howmny == Selected: every selection
-	for sel := 0; sel < 1<<uint(n); sel++ {
+	for sel := 0; sel < 1<<uint(n) && !long; sel++ {
 		for _, side := range sides {
 			ctx := fmt.Sprintf("side=%c howmny=S selected=%0*b", side, n, sel)
 			selected := make([]bool, n)
